@@ -61,6 +61,10 @@ func (p *Prog) funcName(fn *ssa.Function) string {
 		return p.funcName(fn.Parent()) + "$" + strings.TrimPrefix(fn.Name()[strings.LastIndex(fn.Name(), "$"):], "$")
 	}
 	if obj, ok := fn.Object().(*types.Func); ok {
+		if obj.Name() == "init" && obj.Type().(*types.Signature).Recv() == nil && p.SSA != nil {
+			// several init functions per package: name them by their file
+			return p.pkgName(obj.Pkg()) + ".init@" + filepath.Base(p.SSA.Fset.Position(obj.Pos()).Filename)
+		}
 		return p.objName(obj)
 	}
 	if fn.Pkg != nil {
@@ -200,6 +204,137 @@ func (p *Prog) checkRegistries() []string {
 		}
 	}
 	return errs
+}
+
+// checkRegistryValues: the constants the contracts assume about registry
+// entries (key sizes, algorithms of a cipher suite) are those the source registers.
+func (p *Prog) checkRegistryValues() []string {
+	var errs []string
+	for _, rv := range p.CS.RegValues {
+		r := p.CS.Registries[rv.Global]
+		if r == nil {
+			errs = append(errs, fmt.Sprintf("%s: registry-values for undeclared registry %s", rv.Line, rv.Global))
+			continue
+		}
+		if moduleOfGlobal(rv.Global) != filepath.Base(p.Root) && !(moduleOfGlobal(rv.Global) == "" && p.ModPath == "github.com/fido-device-onboard/go-fdo") {
+			continue
+		}
+		argSpec, field, _ := strings.Cut(rv.Arg, ".")
+		var argN int
+		fmt.Sscanf(argSpec, "arg%d", &argN)
+		got := map[int64]int64{}
+		for fn := range ssautil.AllFunctions(p.SSA) {
+			if !strings.HasPrefix(fn.Name(), "init") || fn.Pkg == nil {
+				continue
+			}
+			for _, b := range fn.Blocks {
+				for _, in := range b.Instrs {
+					c, ok := in.(*ssa.Call)
+					if !ok {
+						continue
+					}
+					sc := c.Common().StaticCallee()
+					if sc == nil || p.funcName(sc) != r.Via || len(c.Common().Args) <= argN {
+						continue
+					}
+					k, ok := c.Common().Args[0].(*ssa.Const)
+					if !ok || k.Value == nil {
+						continue
+					}
+					key, _ := constant.Int64Val(constant.ToInt(k.Value))
+					if v, ok := constArg(c.Common().Args[argN], field); ok {
+						got[key] = v
+					}
+				}
+			}
+		}
+		for _, k := range keysOf64(rv.Vals) {
+			if g, ok := got[k]; !ok || g != rv.Vals[k] {
+				errs = append(errs, fmt.Sprintf("%s: registry %s %s: key %d: the contracts assume %d, the source registers %v (found=%v)", rv.Line, rv.Global, rv.Arg, k, rv.Vals[k], g, ok))
+			}
+		}
+		if len(got) != len(rv.Vals) {
+			errs = append(errs, fmt.Sprintf("%s: registry %s %s: %d entries in the source, %d in the contract", rv.Line, rv.Global, rv.Arg, len(got), len(rv.Vals)))
+		}
+	}
+	return errs
+}
+
+func keysOf64(m map[int64]int64) []int64 {
+	var ks []int64
+	for k := range m {
+		ks = append(ks, k)
+	}
+	sort.Slice(ks, func(i, j int) bool { return ks[i] < ks[j] })
+	return ks
+}
+
+// constArg: the constant value of a call argument: an integer/bool constant, or
+// (field != "") the constant stored into that field of a struct literal.
+func constArg(v ssa.Value, field string) (int64, bool) {
+	if field == "" {
+		c, ok := v.(*ssa.Const)
+		if !ok || c.Value == nil {
+			return 0, false
+		}
+		if c.Value.Kind() == constant.Bool {
+			if constant.BoolVal(c.Value) {
+				return 1, true
+			}
+			return 0, true
+		}
+		return constant.Int64Val(constant.ToInt(c.Value))
+	}
+	if field == "bound" {
+		// a bound method value such as crypto.SHA256.HashFunc: the receiver constant
+		if mc, ok := v.(*ssa.MakeClosure); ok && len(mc.Bindings) == 1 {
+			if c, ok := mc.Bindings[0].(*ssa.Const); ok && c.Value != nil {
+				return constant.Int64Val(constant.ToInt(c.Value))
+			}
+		}
+		return 0, false
+	}
+	// struct literal: t = local T; &t.f = const ...; arg = *t
+	ld, ok := v.(*ssa.UnOp)
+	if !ok {
+		return 0, false
+	}
+	alloc, ok := ld.X.(*ssa.Alloc)
+	if !ok {
+		return 0, false
+	}
+	st, ok := under(under(alloc.Type()).(*types.Pointer).Elem()).(*types.Struct)
+	if !ok {
+		return 0, false
+	}
+	idx := -1
+	for i := 0; i < st.NumFields(); i++ {
+		if st.Field(i).Name() == field {
+			idx = i
+		}
+	}
+	if idx < 0 {
+		return 0, false
+	}
+	val, found := int64(0), false // a field not mentioned in the literal is zero
+	for _, ref := range *alloc.Referrers() {
+		fa, ok := ref.(*ssa.FieldAddr)
+		if !ok || fa.Field != idx {
+			continue
+		}
+		for _, r2 := range *fa.Referrers() {
+			if sto, ok := r2.(*ssa.Store); ok {
+				if c, ok := sto.Val.(*ssa.Const); ok && c.Value != nil {
+					val, _ = constant.Int64Val(constant.ToInt(c.Value))
+					found = true
+				} else {
+					return 0, false
+				}
+			}
+		}
+	}
+	_ = found
+	return val, true
 }
 
 func moduleOfGlobal(name string) string {
